@@ -265,6 +265,10 @@ func runC08(w *World, pi interface{}) {
 	go func() {
 		defer scriptDone.Set()
 		n := play(p.Script, 0)
+		if peer.NeedsTLS() {
+			// the client's own choice of TLS is no upgrade point for the scripted server: keep reading
+			peer.ResumeCleartext()
+		}
 		// whatever comes after the client's own report is played only once it has reported
 		if returned.WaitFor(3*time.Minute) && len(p.After) > 0 && !peer.RemoteClosed().IsSet() {
 			for _, st := range p.After {
